@@ -107,3 +107,21 @@ package tm
 //@     invariant 1 <= l.tokenColumn && lineStart(l.source, l.tokenOffset - l.tokenColumn + 1, l.tokenOffset)
 //@     invariant 0 <= rule && rule < 82 && rule != 1 && (rule != 0 ==> l.tokenOffset < l.offset)
 //@     invariant backupRule == -1 || (2 <= backupRule && backupRule < 62 && l.tokenOffset < backupOffset && backupOffset <= len(l.source))
+
+// ---- the token stream (C20): pending comments and invalid tokens are reported before the symbol that follows them ----
+
+// reportIgnored hands one pending token to the listener (a function value, outside the subset).
+//@ func TokenStream.reportIgnored
+//@   option callback-frame
+//@   requires s.listener != nil
+
+// flush(sym): the pending tokens that end at or before sym's end are reported (in order) and dropped;
+// from the first one that ends after it, the rest stays pending, in order. Without a listener nothing changes.
+//@ func TokenStream.flush
+//@   modifies s.pending, s.pending[0:cap(s.pending)]
+//@   ensures s.listener == nil ==> sameslice(s.pending, old(s.pending))
+//@   ensures s.listener != nil ==> exists i in 0..old(len(s.pending)) + 1 :: len(s.pending) == old(len(s.pending)) - i && (forall k in 0..i :: old(s.pending[k].endoffset) <= sym.endoffset) && (i < old(len(s.pending)) ==> old(s.pending[i].endoffset) > sym.endoffset) && (forall k in 0..len(s.pending) :: s.pending[k].symbol == old(s.pending[k + i].symbol) && s.pending[k].offset == old(s.pending[k + i].offset) && s.pending[k].endoffset == old(s.pending[k + i].endoffset))
+//@   loop 1:
+//@     invariant 0 <= @i && @i <= len(s.pending) && sameslice(s.pending, old(s.pending)) && s.listener != nil
+//@     invariant forall k in 0..len(s.pending) :: s.pending[k].symbol == old(s.pending[k].symbol) && s.pending[k].offset == old(s.pending[k].offset) && s.pending[k].endoffset == old(s.pending[k].endoffset)
+//@     invariant forall k in 0..@i :: s.pending[k].endoffset <= sym.endoffset
